@@ -77,8 +77,8 @@ class FileCacheConfig:
     ):
         self.path = path
         self.size_gb = size_gb
-        self.parallel = parallel
-        self.allow_for_missing_files = allow_for_missing_files
+        self._parallel = parallel
+        self._allow_for_missing_files = allow_for_missing_files
 
         if self.config_exists():
             self.load_config()
@@ -96,11 +96,14 @@ class FileCacheConfig:
         with open(self.name, "rb") as fp:
             config = json.load(fp)
             self.size_gb = config["size_gb"]
-            self.parallel = config["parallel"]
-            self.allow_for_missing_files = config["allow_for_missing_files"]
+            self._parallel = config["parallel"]
+            self._allow_for_missing_files = config["allow_for_missing_files"]
 
     def _update_config(self, key, value, write=True):
-        self[key] = value
+        if key in ("parallel", "allow_for_missing_files"):
+            # these are exposed as properties backed by a private attribute
+            key = "_" + key
+        setattr(self, key, value)
         if write:
             self._write_config()
 
@@ -135,7 +138,7 @@ class FileCacheConfig:
 
     @property
     def parallel(self) -> bool:
-        return self.parallel
+        return self._parallel
 
     @parallel.setter
     def parallel(self, parallel: bool):
@@ -143,7 +146,7 @@ class FileCacheConfig:
 
     @property
     def allow_for_missing_files(self) -> bool:
-        return self.allow_for_missing_files
+        return self._allow_for_missing_files
 
     @allow_for_missing_files.setter
     def allow_for_missing_files(self, allow_for_missing_files: bool):
